@@ -19,3 +19,24 @@ pub proof fn theorem_field_listing_deterministic<V>(s1: Seq<(config::RewriteFiel
     det_field_axioms::axiom_field_order();
     det::lemma_canonical_unique(s1, s2, m, field_le());
 }
+
+// the same for import::config::FieldKey (CSV column mapping)
+pub uninterp spec fn fieldkey_ord_le(a: config::FieldKey, b: config::FieldKey) -> bool;
+pub open spec fn fieldkey_le() -> spec_fn(config::FieldKey, config::FieldKey) -> bool { |a: config::FieldKey, b: config::FieldKey| fieldkey_ord_le(a, b) }
+/// `V.sort_unstable_by_key(|(k, _)| **k)`
+#[verifier::external_body]
+pub fn sort_unstable_by_fieldkey<'a, V>(v: &mut Vec<(&'a config::FieldKey, &'a V)>)
+    ensures refs_view(final(v)@).to_multiset() == refs_view(old(v)@).to_multiset(), det::sorted_by_key(refs_view(final(v)@), fieldkey_le()),
+{ unimplemented!() }
+pub mod det_fieldkey_axioms {
+    use super::*;
+    #[verifier::external_body]
+    pub proof fn axiom_fieldkey_order() ensures det::antisym(fieldkey_le()) {}
+}
+pub proof fn theorem_fieldkey_listing_deterministic<V>(s1: Seq<(config::FieldKey, V)>, s2: Seq<(config::FieldKey, V)>, m: Map<config::FieldKey, V>)
+    requires det::is_canonical(s1, m, fieldkey_le()), det::is_canonical(s2, m, fieldkey_le()),
+    ensures s1 == s2,
+{
+    det_fieldkey_axioms::axiom_fieldkey_order();
+    det::lemma_canonical_unique(s1, s2, m, fieldkey_le());
+}
